@@ -7,6 +7,7 @@ import (
 	"io"
 	"os"
 	"os/exec"
+	"regexp"
 	"path/filepath"
 	"sort"
 	"strconv"
@@ -68,6 +69,9 @@ func extParams(cfg extCfg) *ext4.Params {
 			p.Features = append(p.Features, ext4.WithFeatureReservedGDTBlocksForExpansion(false))
 		case "bpg256":
 			p.BlocksPerGroup = 256
+		case "bpg256nr": // small groups without the resize inode
+			p.BlocksPerGroup = 256
+			p.Features = append(p.Features, ext4.WithFeatureReservedGDTBlocksForExpansion(false))
 		case "bpg2048":
 			p.BlocksPerGroup = 2048
 		case "ratio4k":
@@ -84,6 +88,8 @@ func extParams(cfg extCfg) *ext4.Params {
 }
 
 type extRun struct {
+	straddleReached bool // the Straddle macro brought the lowest free block to the last block of a group
+	fsckMid         int  // worst e2fsck exit status seen INSIDE a macro call (0 = clean)
 	cfg    extCfg
 	vol    *fsx.Vol
 	B      int64
@@ -296,6 +302,9 @@ func (r *extRun) event(op extOp, res, panicked string, same []int) map[string]an
 		out += o.Len
 	}
 	ev["outside"] = out
+	ev["fsckmid"] = r.fsckMid
+	ev["straddle"] = r.straddleReached
+	r.fsckMid = 0
 	if r.cfg.Fsck {
 		code, text := r.fsck()
 		ev["fsck"] = code
@@ -465,6 +474,8 @@ func (r *extRun) do(op extOp) map[string]any {
 					err = fmt.Errorf("cannot remove temporary %s: %v", made[i][len(made[i])-12:], e)
 				}
 			}
+		case "Straddle":
+			err = r.straddle()
 		case "BigFile":
 			bigok, err = r.bigFile(op.K)
 		case "Debugfs":
@@ -495,6 +506,205 @@ func (r *extRun) do(op extOp) map[string]any {
 		}
 	}
 	return ev
+}
+
+// freeLayout asks e2fsprogs (dumpe2fs) for the block groups of the volume: first and last block of
+// every group and the free blocks of each.
+type extGroup struct {
+	first, last int64
+	free        map[int64]bool
+}
+
+func (r *extRun) freeLayout() ([]extGroup, error) {
+	if r.work == "" {
+		r.work, _ = os.MkdirTemp("", "extfsck")
+	}
+	img := filepath.Join(r.work, "img")
+	if err := os.WriteFile(img, r.vol.Dev.Bytes(r.cfg.Start, r.cfg.Size), 0o644); err != nil {
+		return nil, err
+	}
+	out, err := exec.Command("/usr/sbin/dumpe2fs", img).Output()
+	if err != nil && len(out) == 0 {
+		return nil, fmt.Errorf("dumpe2fs: %v", err)
+	}
+	var gs []extGroup
+	reG := regexp.MustCompile(`^Group \d+: \(Blocks (\d+)-(\d+)\)`)
+	for _, ln := range strings.Split(string(out), "\n") {
+		if m := reG.FindStringSubmatch(ln); m != nil {
+			a, _ := strconv.ParseInt(m[1], 10, 64)
+			b, _ := strconv.ParseInt(m[2], 10, 64)
+			gs = append(gs, extGroup{first: a, last: b, free: map[int64]bool{}})
+			continue
+		}
+		t := strings.TrimSpace(ln)
+		if strings.HasPrefix(t, "Free blocks:") && len(gs) > 0 {
+			for _, part := range strings.Split(strings.TrimPrefix(t, "Free blocks:"), ",") {
+				part = strings.TrimSpace(part)
+				if part == "" {
+					continue
+				}
+				lo, hi := part, part
+				if i := strings.Index(part, "-"); i > 0 {
+					lo, hi = part[:i], part[i+1:]
+				}
+				a, e1 := strconv.ParseInt(lo, 10, 64)
+				b, e2 := strconv.ParseInt(hi, 10, 64)
+				if e1 != nil || e2 != nil {
+					continue
+				}
+				for x := a; x <= b; x++ {
+					gs[len(gs)-1].free[x] = true
+				}
+			}
+		}
+	}
+	if len(gs) == 0 {
+		return nil, fmt.Errorf("dumpe2fs: no groups in output")
+	}
+	return gs, nil
+}
+
+// straddle makes a directory grow across a block-group boundary: with the help of the reference
+// tool's view of the free blocks it uses up every free block below the last block of some group g
+// whose successor starts with a free block, then adds long-named entries to a fresh directory until
+// it has grown by two blocks (the last block of g and the first of g+1: adjacent on disk, in different
+// groups), then removes the entries, the directory and the padding again.  Net effect on the tree: none.
+// When checking with e2fsck is on, the image is checked after the growth and after the removals.
+func (r *extRun) straddle() error {
+	fs := r.vol.FS
+	gs, err := r.freeLayout()
+	if err != nil {
+		return nil // no reference tool: nothing to do (the macro is a no-op)
+	}
+	if len(gs) < 2 {
+		return nil // a single group has no boundary
+	}
+	// pick the first boundary whose both sides are free
+	target := int64(-1)
+	for g := 0; g+1 < len(gs); g++ {
+		if gs[g].free[gs[g].last] && gs[g+1].free[gs[g+1].first] {
+			target = gs[g].last
+			break
+		}
+	}
+	if target < 0 {
+		return nil
+	}
+	dir := "straddle-dir"
+	if err := fs.Mkdir(dir); err != nil {
+		return nil // no room: nothing demanded
+	}
+	var pads, ents []string
+	cleanup := func() error {
+		var first error
+		for i := len(ents) - 1; i >= 0; i-- {
+			if e := fs.Remove(ents[i]); e != nil && first == nil {
+				first = fmt.Errorf("cannot remove entry of the straddling directory: %v", e)
+			}
+		}
+		if e := fs.Remove(dir); e != nil && first == nil {
+			first = fmt.Errorf("cannot remove the straddling directory: %v", e)
+		}
+		for _, p := range pads {
+			if e := fs.Remove(p); e != nil && first == nil {
+				first = fmt.Errorf("cannot remove padding file: %v", e)
+			}
+		}
+		return first
+	}
+	lowestFree := func(gs []extGroup) int64 {
+		for _, g := range gs {
+			for b := g.first; b <= g.last; b++ {
+				if g.free[b] {
+					return b
+				}
+			}
+		}
+		return -1
+	}
+	// use up the free blocks below the target (a few rounds: extent-tree blocks and the allocator's
+	// choices make the first estimate inexact)
+	for round := 0; round < 6; round++ {
+		gs, err = r.freeLayout()
+		if err != nil {
+			break
+		}
+		n := int64(0)
+		for _, g := range gs {
+			for b := range g.free {
+				if b < target {
+					n++
+				}
+			}
+		}
+		lf := lowestFree(gs)
+		if n == 0 || lf >= target {
+			break
+		}
+		// at most the contiguous run that starts at the lowest free block, so that the pad file stays in one extent
+		run := int64(0)
+		for b := lf; b < target; b++ {
+			free := false
+			for _, g := range gs {
+				if g.free[b] {
+					free = true
+				}
+			}
+			if !free {
+				break
+			}
+			run++
+		}
+		if run == 0 {
+			break
+		}
+		nm := fmt.Sprintf("straddle-pad-%d.bin", round)
+		f, e := fs.OpenFile(nm, os.O_CREATE|os.O_RDWR)
+		if e != nil {
+			break
+		}
+		pads = append(pads, nm)
+		_, e = f.Write(r.content(5, 0, run*r.B))
+		f.Close()
+		if e != nil {
+			break
+		}
+	}
+	gs, err = r.freeLayout()
+	reached := err == nil && lowestFree(gs) == target
+	// grow the directory by at least two blocks
+	per := int(r.B / 264)
+	for i := 0; i < 2*per+3; i++ {
+		nm := fmt.Sprintf("%s/%s-%04d", dir, strings.Repeat("s", 240), i)
+		f, e := fs.OpenFile(nm, os.O_CREATE|os.O_RDWR)
+		if e != nil {
+			break
+		}
+		f.Close()
+		ents = append(ents, nm)
+	}
+	r.straddleReached = r.straddleReached || reached
+	if r.cfg.Fsck {
+		if code, text := r.fsck(); code != 0 {
+			cleanup()
+			r.fsckMid = code
+			return fmt.Errorf("e2fsck exit %d with a directory grown across a block group boundary (boundary reached: %v): %s", code, reached, text)
+		}
+	}
+	if _, e := fs.ReadDir(dir); e != nil {
+		cleanup()
+		return fmt.Errorf("directory grown across a block group boundary is unreadable: %v", e)
+	}
+	if e := cleanup(); e != nil {
+		return e
+	}
+	if r.cfg.Fsck {
+		if code, text := r.fsck(); code != 0 {
+			r.fsckMid = code
+			return fmt.Errorf("e2fsck exit %d after removing a directory that had grown across a block group boundary (boundary reached: %v): %s", code, reached, text)
+		}
+	}
+	return nil
 }
 
 // bigFile writes a file of nblocks blocks outside the universe in irregular pieces (forward,
